@@ -548,6 +548,13 @@ class C04(EngineBase):
         ref = results.get(0)
         if ref is None or ref[0] != "ok":
             st.stats["route.reference_failed"] += 1
+            oks = sorted((str(r_) for r_, res_ in results.items() if r_ != 0 and res_[0] == "ok"))
+            if oks and ref is not None and ref[0] == "raised":
+                # whether the network can be contracted at all must not depend
+                # on the route either
+                self.report(st, "route-independent", "route-raised",
+                            f"canonical route raised {ref[1]}: {ref[2]} but route {oks[0]} succeeds",
+                            ["raise-mismatch"])
             return
         for r, res in sorted(results.items(), key=lambda kv: str(kv[0])):
             if r == 0:
